@@ -52,7 +52,7 @@ def cases(draw):
         a["eff"] = effs
     if not p["goals"]:
         p["goals"] = [g.bool_expr({"params": [], "vars": []}, 1)]
-    nstates = g.i(1, 4)
+    nstates = g.pick([1, 2, 2, 3, 3, 4])
     states = [[g.b() for _ in range(8)] for _ in range(nstates)]
     if nstates >= 2 and g.b(0.25):
         states.append(list(states[0]))  # a duplicate
